@@ -109,6 +109,13 @@ def parseStep (s : String) (K : Nat) : Option SStep :=
   | ["N", "G"] => some (.newReq true)
   | ["N", "P"] => some (.newReq false)
   | ["N", "W"] => some .newReqWs
+  | ["N", g, k, b] =>
+    -- a request for which the dial placeholder of upstream key k expands to something undialable
+    -- (b: 1 = named port, 2 = port range, 3 = not set); only in `schedph` schedules
+    match num k, num b with
+    | some k, some b =>
+      if k < K && 1 ≤ b && b ≤ 3 && (g == "G" || g == "P") then some (.newReqBad (g == "G") k) else none
+    | _, _ => none
   | ["O", r, "sb"] => (num r).map .streamBegin
   | ["O", r, "wu"] => (num r).map .wsBegin
   | ["O", r, "se"] => (num r).map .streamEnd
@@ -149,6 +156,11 @@ def loadModes (steps : List String) : List Nat :=
     an unknown amount: they cannot be mixed with checks the schedule drives (modes 4..7) -/
 def mixesActiveModes (steps : List String) : Bool :=
   (loadModes steps).any (fun l => l == 2 || l == 3) && (loadModes steps).any (fun l => 4 ≤ l && l ≤ 7)
+
+def usesBadDial : List SStep → Bool
+  | [] => false
+  | .newReqBad _ _ :: _ => true
+  | _ :: rest => usesBadDial rest
 
 def totalTicks : List SStep → Nat
   | [] => 0
@@ -191,7 +203,7 @@ def runSched (K : Nat) : DState → List SStep → List String → Option (List 
     | some (d1, ev) =>
       runSched K { d1 with s := settle d1.s, aged := agedAfter d st } rest (acc ++ [snapshot { d1 with s := settle d1.s } K ev])
 
-def handleSched (k steps : String) : String :=
+def handleSched (k steps : String) (ph : Bool := false) : String :=
   match num k with
   | none => "bad-op"
   | some K =>
@@ -201,6 +213,10 @@ def handleSched (k steps : String) : String :=
     | none => "bad-op"
     | some sts =>
       if mixesActiveModes (steps.splitOn ";") then "bad-op" else
+      -- `schedph`: every upstream's dial address is a request placeholder; active health checks
+      -- cannot use such addresses (modes 2..7); undialable requests exist only there
+      if usesBadDial sts && !ph then "bad-op" else
+      if ph && (loadModes (steps.splitOn ";")).any (fun l => 2 ≤ l && l ≤ 7) then "bad-op" else
       if totalTicks sts > 99 then "bad-op" else
       if usesLatency sts && totalTicks sts > 0 then "bad-op" else
       match runSched K dinit sts [] with
@@ -315,6 +331,7 @@ def handleStress (dyn : Bool) (ns seeds : String) : String :=
 
 def handle : List String → String
   | ["sched", k, steps] => handleSched k steps
+  | ["schedph", k, steps] => handleSched k steps true   -- the same, every dial address is a request placeholder
   | ["schedcf", k, steps] => handleSched k steps   -- same schedule, configuration delivered as Caddyfile
   | ["stress", n, seed] => handleStress false n seed
   | ["stressdyn", n, seed] => handleStress true n seed   -- the same, upstreams from a dynamic source
